@@ -16,6 +16,7 @@ import IbicusModel.Props.C01
 #print axioms Props.C01.qm_nonparam_perm
 #print axioms Props.C01.qm_nonparam_mean
 #print axioms Props.C01.cdft_rank_transfer_clamped
+#print axioms Props.C01.cdft_clamped_perm
 #print axioms Props.C01.cdft_perm
 #print axioms Props.C01.cdftShifted_additive_nodup
 #print axioms Props.C01.cdftShifted_mean
@@ -23,6 +24,7 @@ import IbicusModel.Props.C01
 #print axioms Props.C01.qdm_mean_symm_loc_mean
 #print axioms Props.C01.isimip_add_fit
 #print axioms Props.C01.isimip_add_fit_eq
+#print axioms Props.C01.isimip_annual_trend_centred
 #print axioms Props.C01.sdm_abs_perm
 #print axioms Props.C01.sdm_abs_mean
 #print axioms Props.C01.legacy_sdm_eq
